@@ -299,8 +299,26 @@ fn check_living(c: &super::c03::HCase, obs: &mut Obs) -> Verdict {
     Verdict::Pass
 }
 
+/// The round trip of a map that is the result of 2..4 composed operations.
+fn check_composed(c: &super::c03::CCase, obs: &mut Obs) -> Verdict {
+    match super::c03::build_composed(c, obs) {
+        Ok(Some(m)) => match roundtrip(&m, false, obs) {
+            Verdict::Fail(e) => Verdict::Fail(format!("after {:?}: {e}", c.producers)),
+            v => {
+                if c.producers.iter().filter(|p| !matches!(p, Producer::Direct)).count() >= 2 && c.base.tokens.len() >= 3 {
+                    obs.nontrivial();
+                }
+                v
+            }
+        },
+        Ok(None) => Verdict::Pass,
+        Err(e) => Verdict::Fail(e),
+    }
+}
+
 fn subs() -> Vec<Sub> {
     vec![
+        gen_sub("composed_operations", super::c03::composed, |t| t.pick(15_000, 150_000), check_composed),
         gen_sub("living_object", super::c03::living, |t| t.pick(16_000, 160_000), check_living),
         gen_sub("large_regular", large, |t| t.pick(300, 3_000), check),
         gen_sub("deep_nesting", deep, |t| t.pick(600, 12_000), check),
